@@ -428,6 +428,12 @@ func (e *Engine) verifyFunction(key string) (u *Unit, err error) {
 			ob.Pos = en.Where
 		}
 	}
+	// every argument-flow clause must have found its call site
+	for _, ac := range ct.AtCalls {
+		if u.active(ac.Clause.Props) && !fr.atCallSeen[ac] {
+			u.oblig("callsite", fmt.Sprintf("no call of %s with a format matching /%s/ was found for: %s", ac.Callee, ac.Re, ac.Clause.Text), "false", ac.Clause.Props).Pos = ac.Clause.Where
+		}
+	}
 	// receiver type invariant re-established (pointer receivers only: a value receiver is a copy)
 	if recvInv != nil {
 		if _, isPtr := fn.Signature.Recv().Type().Underlying().(*types.Pointer); !isPtr {
